@@ -97,14 +97,11 @@ theorem sigStart_frame (s : S) (h sig : Nat) (os : Bool) :
 
 theorem applyOp_frame (s : S) (o : Op) :
     (applyOp s o).1.trace = s.trace ∧ (applyOp s o).1.pipes = s.pipes ∧ (applyOp s o).1.ncb = s.ncb := by
-  unfold applyOp
-  split
-  · exact ⟨rfl, rfl, rfl⟩
-  cases o with
-  | start h sig => exact sigStart_frame s h sig false
-  | oneshot h sig => exact sigStart_frame s h sig true
-  | stop h => exact sigStop_frame s h
-  | close h => exact sigStop_frame s h
+  cases o <;> simp only [applyOp] <;> split <;> (try exact ⟨rfl, rfl, rfl⟩)
+  · exact sigStart_frame s _ _ false
+  · exact sigStart_frame s _ _ true
+  · exact sigStop_frame s _
+  · exact sigStop_frame s _
 
 theorem runOps_frame (s : S) (os : List Op) :
     (runOps s os).trace = s.trace ∧ (runOps s os).pipes = s.pipes ∧ (runOps s os).ncb = s.ncb := by
@@ -192,6 +189,14 @@ theorem close_waits_for_caught (s : S) (h : Nat) :
   · intro hle
     have : ¬ (s.hs h).caught > (s.hs h).dispatched := by omega
     simp [this]
+
+/-- the deferral does not depend on the handle being referenced (`uv_unref`): `uv__finish_close`
+looks only at `caught`/`dispatched`. -/
+theorem close_waits_ignores_ref (s : S) (h : Nat) (r : Bool) :
+    (finishClose (setRef s h r) h).trace = (finishClose s h).trace ∧
+    ((finishClose (setRef s h r) h).hs h).closed = ((finishClose s h).hs h).closed := by
+  unfold finishClose setRef
+  by_cases c : (s.hs h).caught > (s.hs h).dispatched <;> simp [c]
 
 def w2 : S := runEvs (fun _ => []) (init (fun _ => 0))
   [.op (.start 0 10), .op (.start 1 10), .deliver 10, .op (.close 0), .runClosing 0]
